@@ -6,30 +6,27 @@
   Spec side: Spec/Pglz.lean (token lists, `expand` = what a stream stands for, `renderPglz` = pg_lzcompress.c's byte
   layout), Spec/Lz4.lean (sequences, `expand`, `render` = LZ4 block format), Spec/Toast.lean (18-byte external pointer,
   toasted value = original / stored form / chunking / pointer, rows of the TOAST relation, layouts = rows placed on heap
-  pages in any order together with other values' rows and rows whose hint bits say dead / aborted / in progress).
-  Model side: Model/Toast.lean, Model/Pglz.lean, Model/Lz4.lean = pgdump/toast.go with fixes/toast/01..06 applied.
+  pages in any order together with other values' rows and rows of aborted insertions).
+  Model side: Model/Toast.lean, Model/Pglz.lean, Model/Lz4.lean = pgdump/toast.go with fixes/toast/01..06, 20..22 applied.
 
   LIVENESS OF A CHUNK (what "dead chunk versions" means in every theorem below).  A row of the TOAST relation is LIVE iff
-  its own hint bits say so: `Spec.liveBits infomask` = HEAP_XMIN_COMMITTED set and not (HEAP_XMAX_COMMITTED set without
-  HEAP_XMAX_INVALID) — the same rule C09 fixes for every heap ("classified by their own hint bits only"; the tool has no
-  commit log).  `Layout.liveRows`, `Layout.Stores` and the statistics are defined through it.  Consequences, which the
-  theorems do NOT hide and the property's "mixed with … dead chunk versions" has to be read with:
-    * a dead version counts as dead only once it is HINTED dead (xmax committed: 0x0502) or its inserter is hinted
-      aborted / not hinted at all (0x0202, 0x0A02, 0x0002, 0x0802 …);
-    * a chunk whose inserter committed but whose XMIN_COMMITTED hint was never set — PostgreSQL reads TOAST chunks under
-      a visibility rule that does not set hint bits, so this is the state (0x0802) of every value toasted since the last
-      VACUUM of the TOAST relation — is NOT live here: such a value has no live rows, `Stores` is false, the theorems are
-      silent and the tool returns nil where PostgreSQL returns the value;
-    * a deleted version whose deleter's commit is not yet hinted (0x0102 with xmax ≠ 0) IS live here: old and new version
-      are both live rows with the same chunk_seq, `Stores` is false (the filtered rows are not a permutation of the
-      value's chunks), the theorems are silent, and the tool concatenates both (in stored order among equal sequence
-      numbers since fixes/toast/06: family `toastties`).
-  Deciding these two classes needs the commit log (pg_xact), which no function of the tool reads; they are recorded as
-  the open finding `C08-unhinted-chunks` in /verif/fixes/toast/known_findings.json.
+  PostgreSQL's TOAST snapshot sees it: `Spec.Toast.toastVisible infomask xmin` = HeapTupleSatisfiesToast
+  (heapam_visibility.c, 12–16) = HEAP_XMIN_COMMITTED set, or else HEAP_XMIN_INVALID not set and t_xmin ≠ 0.  The rule reads
+  the tuple header only: no commit log, no t_xmax, no XMAX hint bit.  `Layout.liveRows`, `Layout.Stores` and the statistics
+  are defined through it.  So
+    * a chunk nobody has hinted yet (0x0802: the state of every chunk until the first VACUUM or pruning of the TOAST
+      relation) is live — the tool read TOAST relations with the heap rule of C09 before fixes/toast/21 (XMIN_COMMITTED
+      hinted and deleter not committed), did not see such chunks and returned nil for the value: `C08_unhinted_witness`;
+    * the chunks of a DELETED value (xmax committed, 0x0502) are live as long as they are on the page: PostgreSQL decides
+      whether a value is alive by the visibility of the main tuple that points to it, never by its chunks, and the tool
+      reads the value behind the pointer of a deleted main row (ReadDeletedRows) the same way;
+    * a DEAD CHUNK VERSION in the property's sense is a row left by an aborted insertion (HEAP_XMIN_INVALID without
+      HEAP_XMIN_COMMITTED: 0x0202, 0x0A02, …) or a cancelled speculative insertion (t_xmin 0): these are the only rows
+      that can carry the (chunk_id, chunk_seq) of a visible chunk — value ids are not reused while rows with them exist —
+      and they are not read, whatever they contain.
 -/
 import PgVerif.Proofs.ToastReasm
 import PgVerif.Proofs.ToastStats
-import PgVerif.Proofs.ToastFate
 namespace PgVerif.Props.C08
 open PgVerif PgVerif.Model PgVerif.Model.Toast PgVerif.Spec PgVerif.Spec.Toast PgVerif.Proofs.Toast
 
@@ -74,20 +71,19 @@ theorem C08_lz4 (b : Lz4.Block) (h : Lz4.Lz4WF b) :
 example : Lz4.Lz4WF ⟨[⟨[0x61, 0x62, 0x63], 3, 30⟩, ⟨[], 1, 300⟩, ⟨List.replicate 20 7, 20, 19⟩], [1, 2, 3, 4, 5]⟩ := by
   decide
 
-/-- the chunks ReadTOASTTable returns for a layout: one per LIVE row (live by its own hint bits: see the head of this
-file), in physical order, with the row's id, sequence number and bytes -/
+/-- the chunks ReadTOASTTable returns for a layout: one per LIVE row (live = seen by PostgreSQL's TOAST snapshot,
+`Spec.Toast.toastVisible`: see the head of this file), in physical order, with the row's id, sequence number and bytes -/
 theorem C08_chunks (lay : Layout) (h : lay.WF) :
     readTOASTTable (encToastRel lay) = .ok (lay.liveRows.map toChunk) :=
   readTOASTTable_layout lay h
 
 /-- Reassembly: for every well-formed layout of a TOAST relation — rows on any number of pages in ANY physical order,
-mixed with other values' rows and with rows whose OWN HINT BITS say dead, aborted or in progress (whatever their
-contents) — and every value `v` (1 byte .. 1 GiB, stored plain, pglz- or LZ4-compressed, cut into chunks of any
-sizes) that the relation `Stores`: the rows that are live BY THEIR HINT BITS and carry `v`'s id are exactly `v`'s chunks
-(each once, any order): reading the relation, parsing the 18-byte pointer PostgreSQL left in the
-main tuple, and reassembling returns exactly the original bytes of `v`.  Holds for every behaviour of the zlib fallback
-(it is never reached).  Not covered (see the head of this file): values whose chunks are committed but not yet hinted,
-and dead versions not yet hinted dead — `Stores` is false for both. -/
+mixed with other values' rows (live or deleted) and with dead chunk versions (rows of aborted or cancelled insertions,
+whatever their contents and their xmax bits) — and every value `v` (1 byte .. 1 GiB, stored plain, pglz- or
+LZ4-compressed, cut into chunks of any sizes) that the relation `Stores`: the rows PostgreSQL's TOAST snapshot sees with
+`v`'s id are exactly `v`'s chunks (each once, any order; in any hint state: unhinted, hinted committed, frozen, with any
+xmax): reading the relation, parsing the 18-byte pointer PostgreSQL left in the main tuple, and reassembling returns
+exactly the original bytes of `v`.  Holds for every behaviour of the zlib fallback (it is never reached). -/
 theorem C08_reassemble (zlib : Bytes → Nat → Option Bytes) (lay : Layout) (hl : lay.WF) (v : ToastValue) (hv : v.WF)
     (hs : lay.Stores v) :
     (do let chunks ← readTOASTTable (encToastRel lay)
@@ -100,70 +96,57 @@ theorem C08_reassemble (zlib : Bytes → Nat → Option Bytes) (lay : Layout) (h
   rw [List.filter_map]
   exact hs.map toChunk
 
-/-- Reassembly at POSTGRESQL's notion of a live chunk (open finding `C08-unhinted-chunks`: the carve-out as an explicit
-hypothesis).  Give every stored tuple its `Fate` — what the commit log knows: did the inserter commit, did a deleter —
-and let `StoresPG v` say that the rows VISIBLE TO POSTGRESQL with `v`'s id are exactly `v`'s chunks.  If the hint bits
-of every tuple of the relation decide its visibility (`FullyHinted`: the state of a relation after VACUUM, or once every
-chunk has been visited by something that sets hints), then reading, parsing the pointer and reassembling returns the
-original bytes.  Without `FullyHinted` the statement is FALSE for the tool (`C08_unhinted_witness`). -/
-theorem C08_reassemble_pg (zlib : Bytes → Nat → Option Bytes) (l : FatedLayout) (hl : l.layout.WF) (hh : l.FullyHinted)
-    (v : ToastValue) (hv : v.WF) (hs : l.StoresPG v) :
-    (do let chunks ← readTOASTTable (encToastRel l.layout)
-        match ← parseTOASTPointer (encExtPtr (ptrOf v)) with
-        | none => pure none
-        | some p => reassembleTOAST zlib chunks p.valueID (some p)) = .ok (some v.content.original) :=
-  C08_reassemble zlib l.layout hl v hv (stores_of_storesPG l hh v hs)
-
 /-- a one-chunk value, toasted by a transaction that committed -/
 def unhintedValue : ToastValue := { id := 7, relid := 16385, content := .plain [1, 2, 3], cuts := [3] }
-/-- its chunk still in the state every freshly inserted tuple has (0x0802: XMAX_INVALID; XMIN_COMMITTED not yet set) -/
-def unhintedFresh : FatedLayout := [[({ row := { id := 7, seq := 0, data := [1, 2, 3] }, infomask := 0x0802 }, {})]]
-/-- the chunk was replaced: the old version deleted by a committed transaction but not yet hinted so (0x0102, xmax ≠ 0) -/
-def unhintedStale : FatedLayout :=
-  [[({ row := { id := 7, seq := 0, data := [9, 9] }, infomask := 0x0102, xmax := 900 }, { deleted := true }),
-    ({ row := { id := 7, seq := 0, data := [1, 2, 3] } }, {})]]
+/-- its chunk in the state every freshly inserted tuple has (0x0802: XMAX_INVALID; no XMIN hint yet) — what a TOAST
+relation looks like until its first VACUUM -/
+def unhintedFresh : Layout := [[{ row := { id := 7, seq := 0, data := [1, 2, 3] }, infomask := 0x0802 }]]
+/-- the same value stored next to leftovers with its id: an aborted insertion (0x0A02), a cancelled speculative insertion
+(t_xmin 0), and before them the chunk of another, DELETED value (0x0502, xmax committed) -/
+def unhintedMixed : Layout :=
+  [[{ row := { id := 6, seq := 0, data := [6, 6] }, infomask := 0x0502, xmax := 900 },
+    { row := { id := 7, seq := 0, data := [9, 9] }, infomask := 0x0A02, xmin := 650 },
+    { row := { id := 7, seq := 0, data := [8] }, infomask := 0x0802, xmin := 0 },
+    { row := { id := 7, seq := 0, data := [1, 2, 3] }, infomask := 0x0802 }]]
 
-/-- **The open finding `C08-unhinted-chunks`, on the model.**  In both relations the hint bits are sound and PostgreSQL
-sees exactly the value's chunk (`StoresPG`), but the hint bits do not decide (`¬ FullyHinted`); the tool returns nil for
-the freshly toasted value, and the concatenation of the deleted and the current version for the other. -/
+/-- **The defect repaired by fixes/toast/21 (finding `C08-unhinted-chunks`), on the model.**  The relation holding the
+unhinted chunk is well-formed and stores the value; the repaired reader returns the original bytes (also next to an
+aborted version, a cancelled insertion and a deleted value's chunk, which shows up as a chunk of its own id); the reader
+the tool used before — the heap scan with `visibleOnly` = C09's hint-bit rule, `ReadTuples(data, true)` — finds NO tuple
+in the same file, so ReassembleTOAST had no chunk and returned nil. -/
 theorem C08_unhinted_witness :
-    unhintedValue.WF ∧
-    unhintedFresh.layout.WF ∧ unhintedFresh.Sound ∧ unhintedFresh.StoresPG unhintedValue ∧ ¬ unhintedFresh.FullyHinted ∧
-    (do let chunks ← readTOASTTable (encToastRel unhintedFresh.layout)
+    unhintedValue.WF ∧ unhintedFresh.WF ∧ unhintedFresh.Stores unhintedValue ∧
+    (do let chunks ← readTOASTTable (encToastRel unhintedFresh)
         match ← parseTOASTPointer (encExtPtr (ptrOf unhintedValue)) with
         | none => pure none
-        | some p => reassembleTOAST (fun _ _ => none) chunks p.valueID (some p)) = .ok none ∧
-    unhintedStale.layout.WF ∧ unhintedStale.Sound ∧ unhintedStale.StoresPG unhintedValue ∧ ¬ unhintedStale.FullyHinted ∧
-    (do let chunks ← readTOASTTable (encToastRel unhintedStale.layout)
-        match ← parseTOASTPointer (encExtPtr (ptrOf unhintedValue)) with
-        | none => pure none
-        | some p => reassembleTOAST (fun _ _ => none) chunks p.valueID (some p)) = .ok (some [9, 9, 1, 2, 3]) := by
+        | some p => reassembleTOAST (fun _ _ => none) chunks p.valueID (some p)) = .ok (some [1, 2, 3]) ∧
+    (readTuples (encToastRel unhintedFresh) true).map List.length = .ok 0 ∧
+    unhintedMixed.WF ∧ unhintedMixed.Stores unhintedValue ∧
+    readTOASTTable (encToastRel unhintedMixed) = .ok [⟨6, 0, [6, 6]⟩, ⟨7, 0, [1, 2, 3]⟩] := by
   have hv : unhintedValue.WF := by decide +kernel
-  have h1 : unhintedFresh.layout.WF := by decide +kernel
-  have h2 : unhintedStale.layout.WF := by decide +kernel
-  refine ⟨hv, h1, by decide +kernel, by decide +kernel, by decide +kernel, ?_, h2, by decide +kernel, by decide +kernel,
-    by decide +kernel, ?_⟩
-  · rw [C08_chunks _ h1, parse_ptrOf _ hv]
-    simp only [ok_bind]
-    have hl : unhintedFresh.layout.liveRows.map toChunk = [] := by decide +kernel
-    rw [hl]
-    rfl
-  · rw [C08_chunks _ h2, parse_ptrOf _ hv]
-    simp only [ok_bind]
-    have hl : unhintedStale.layout.liveRows.map toChunk = [⟨7, 0, [9, 9]⟩, ⟨7, 0, [1, 2, 3]⟩] := by decide +kernel
-    rw [hl]
-    unfold reassembleTOAST
-    have hm : ([⟨7, 0, [9, 9]⟩, ⟨7, 0, [1, 2, 3]⟩] : List Chunk).mergeSort (fun a b => decide (a.seq ≤ b.seq)) =
-        [⟨7, 0, [9, 9]⟩, ⟨7, 0, [1, 2, 3]⟩] :=
-      List.mergeSort_of_pairwise (by decide)
-    simp [mptr, unhintedValue, hm, Content.stored, Content.original]
-
-/-- non-vacuity of `C08_reassemble_pg`: a fully hinted relation with a hinted-dead old version -/
-example :
-    let v : ToastValue := { id := 7, relid := 16385, content := .plain [1, 2, 3], cuts := [3] }
-    let l : FatedLayout := [[({ row := { id := 7, seq := 0, data := [9, 9] }, infomask := 0x0502, xmax := 900 }, { deleted := true }),
-                             ({ row := { id := 7, seq := 0, data := [1, 2, 3] } }, {})]]
-    l.layout.WF ∧ l.FullyHinted ∧ l.Sound ∧ l.StoresPG v := by decide +kernel
+  have h1 : unhintedFresh.WF := by decide +kernel
+  have h2 : unhintedMixed.WF := by decide +kernel
+  have hs : unhintedFresh.Stores unhintedValue := by decide +kernel
+  refine ⟨hv, h1, hs, C08_reassemble _ _ h1 _ hv hs, ?_, h2, by decide +kernel, ?_⟩
+  · have hb : ∀ b ∈ unhintedFresh.map (fun pg => Block.page (toastPage pg)), b.WF := by
+      intro b hb
+      simp only [List.mem_map] at hb
+      obtain ⟨pg, hpg, rfl⟩ := hb
+      exact toastPage_wf pg (h1 pg hpg).1 (h1 pg hpg).2
+    have := PgVerif.Proofs.scan_enc _ [] true hb (by simp)
+    have he : PgVerif.Proofs.scanViewVis true 0 (unhintedFresh.map fun pg => Block.page (toastPage pg)) = [] := by
+      decide +kernel
+    rw [he] at this
+    unfold encToastRel
+    cases hr : readTuples (encHeap (unhintedFresh.map fun pg => Block.page (toastPage pg)) []) true with
+    | error e => rw [hr] at this; simp [Except.map] at this
+    | ok es =>
+      rw [hr] at this
+      simp only [Except.map, Except.ok.injEq, List.map_eq_nil_iff] at this
+      subst this; rfl
+  · rw [C08_chunks _ h2]
+    have : unhintedMixed.liveRows.map toChunk = [⟨6, 0, [6, 6]⟩, ⟨7, 0, [1, 2, 3]⟩] := by decide +kernel
+    rw [this]
 
 /-- The same through TOASTReader.ReadValue with the relation loaded under the pointer's relation id. -/
 theorem C08_readValue (zlib : Bytes → Nat → Option Bytes) (readFile : Nat → Option Bytes) (lay : Layout) (hl : lay.WF)
@@ -214,28 +197,37 @@ theorem C08_readValue_isolated (zlib : Bytes → Nat → Option Bytes) (readFile
 
 /-- Reassembly from ANY well-formed heap file (the general form of `C08_reassemble`): blocks = formatted pages with
 pointers in any state, tuples anywhere on the page with junk between them, all-zero blocks, a trailing partial block;
-the only assumption is that the data areas of the LIVE tuples are rows of a TOAST relation (dead tuples may hold anything)
-and that the live rows with `chunk_id = v.id` are exactly `v`'s chunks in some order. -/
+the only assumptions are that every stored t_xmin fits its 4 bytes (`xminOK`), that the data areas of the LIVE tuples
+(`liveDatas`: the tuples PostgreSQL's TOAST snapshot sees, `Spec.Toast.toastVisible`) are rows of a TOAST relation (dead
+tuples may hold anything) and that the live rows with `chunk_id = v.id` are exactly `v`'s chunks in some order. -/
 theorem C08_reassemble_heap (zlib : Bytes → Nat → Option Bytes) (bs : List Block) (tail : Bytes) (hb : ∀ b ∈ bs, b.WF)
-    (ht : tail.length < 8192) (rows : List Row) (hr : ∀ r ∈ rows, r.WF) (hd : liveDatas bs = rows.map rowData)
+    (hx : ∀ b ∈ bs, xminOK b) (ht : tail.length < 8192) (rows : List Row) (hr : ∀ r ∈ rows, r.WF) (hd : liveDatas bs = rows.map rowData)
     (v : ToastValue) (hv : v.WF) (hs : (rows.filter fun r => r.id == v.id).Perm (chunkRows v)) :
     (do let chunks ← readTOASTTable (encHeap bs tail)
         match ← parseTOASTPointer (encExtPtr (ptrOf v)) with
         | none => pure none
         | some p => reassembleTOAST zlib chunks p.valueID (some p)) = .ok (some v.content.original) := by
-  rw [readTOASTTable_heap bs tail hb ht, hd, collectM_rows rows hr, parse_ptrOf v hv]
+  rw [readTOASTTable_heap bs tail hb hx ht, hd, collectM_rows rows hr, parse_ptrOf v hv]
   simp only [ok_bind]
   apply reassemble_value zlib _ v hv
   rw [List.filter_map]
   exact hs.map toChunk
 
+/-- the block hypotheses of `C08_reassemble_heap` are satisfiable by the real thing: the pages of every well-formed layout are
+well-formed blocks whose tuples carry 32-bit xmins (this is how `C08_chunks` / `C08_reassemble` are obtained from it) -/
+example (lay : Layout) (h : lay.WF) : ∀ b ∈ lay.map (fun pg => Block.page (toastPage pg)), b.WF ∧ xminOK b := by
+  intro b hb
+  simp only [List.mem_map] at hb
+  obtain ⟨pg, hpg, rfl⟩ := hb
+  exact ⟨toastPage_wf pg (h pg hpg).1 (h pg hpg).2, xminOK_toastPage pg (h pg hpg).2⟩
+
 /-- non-vacuity: a two-chunk plain value and a pglz-compressed value in one relation, stored out of order on two pages
-with a dead version of a chunk in between: the layout is well-formed and stores both values -/
+with a dead version of a chunk (an aborted insertion) in between: the layout is well-formed and stores both values -/
 example :
     let v1 : ToastValue := { id := 7, relid := 16385, content := .plain [1, 2, 3, 4, 5], cuts := [3, 2] }
     let ts : List Pglz.Tok := [.lit 0x61, .mat 1 273, .mat 1 20]
     let v2 : ToastValue := { id := 8, relid := 16385, content := .pglz ts, cuts := [4, 1, 7] }
-    let dead : Entry := { row := { id := 7, seq := 0, data := [9, 9] }, infomask := 0x0502 }
+    let dead : Entry := { row := { id := 7, seq := 0, data := [9, 9] }, infomask := 0x0A02 }
     let lay : Layout := [[{ row := { id := 7, seq := 1, data := [4, 5] } }, dead, { row := { id := 8, seq := 2, data := (v2.content.stored.drop 5) } }],
                          [{ row := { id := 8, seq := 0, data := v2.content.stored.take 4 } }, { row := { id := 7, seq := 0, data := [1, 2, 3] } },
                           { row := { id := 8, seq := 1, data := (v2.content.stored.drop 4).take 1 } }]]
@@ -244,8 +236,8 @@ example :
 
 /-- Statistics: for every well-formed layout and every order in which Go's `range` yields the entries of the value map
 (`π`: any rearrangement), GetTOASTVerboseInfo reports nil when the relation has no live chunk, and otherwise a report that
-satisfies `StatsOK` for the LIVE rows (live = visible by the tuple's own hint bits, see `C08_reassemble`; dead / aborted
-versions are not counted): total chunk count, total bytes, the average as the quotient of these two, exactly one entry per
+satisfies `StatsOK` for the LIVE rows (live = seen by PostgreSQL's TOAST snapshot, see the head of this file: rows of
+aborted / cancelled insertions are not counted, the chunks of deleted values still on the pages are): total chunk count, total bytes, the average as the quotient of these two, exactly one entry per
 distinct chunk id with that value's chunk count (non-zero) and byte total, the entries in ascending chunk id order
 (fixes/toast/05; `StatsOK.values_unique`: this fixes the list completely), the number of such entries as `unique_values`,
 their maximum chunk count, and a distribution map (a Go map: rendered by key) holding under every occurring chunk count the
@@ -272,10 +264,11 @@ theorem C08_stats_values_unique (relid : Nat) (rows : List Row) (i j : VerboseIn
 example : (List.reverse : GroupOrder) [(1, []), (2, [])] = [(2, []), (1, [])] ∧ ∀ l, ((List.reverse : GroupOrder) l).Perm l :=
   ⟨rfl, fun l => List.reverse_perm l⟩
 
-/-- non-vacuity: three live rows of two values and a dead one; value 7 has 2 chunks / 5 bytes, value 8 one chunk / 1 byte -/
+/-- non-vacuity: three live rows of two values and a dead one (aborted insertion); value 7 has 2 chunks / 5 bytes, value 8
+one unhinted chunk / 1 byte -/
 example :
-    let lay : Layout := [[{ row := { id := 7, seq := 1, data := [4, 5] } }, { row := { id := 7, seq := 0, data := [9, 9] }, infomask := 0x0502 },
-                          { row := { id := 8, seq := 0, data := [6] } }], [{ row := { id := 7, seq := 0, data := [1, 2, 3] } }]]
+    let lay : Layout := [[{ row := { id := 7, seq := 1, data := [4, 5] } }, { row := { id := 7, seq := 0, data := [9, 9] }, infomask := 0x0A02 },
+                          { row := { id := 8, seq := 0, data := [6] }, infomask := 0x0802 }], [{ row := { id := 7, seq := 0, data := [1, 2, 3] } }]]
     lay.WF ∧ lay.liveRows.length = 3 ∧
       (stats lay.liveRows).values = [⟨7, 2, 5⟩, ⟨8, 1, 1⟩] ∧ (stats lay.liveRows).distribution = [(1, 1), (2, 1)] := by
   decide +kernel
